@@ -210,8 +210,9 @@ PROPS = {
         "lean": "Props.C04",
         "domains": [{"name": "fingerhist-c04"}],
         "cli": True,
-        "trusted": ["the hash (xxh3-128) is uninterpreted: theorems speak of the byte stream fed to it; the harness checks that every stored "
-                    "checksum is xxh3 of the model's stream; what one glob pattern matches (mvdan/sh expansion) is an oracle",
+        "trusted": ["the hashes (xxh3-128 of the stream, xxh3-64 of its length table) are uninterpreted: theorems speak of the bytes fed to them; the "
+                    "harness checks that every stored checksum is xxh3 of the model's stream followed by xxh3 of the model's length table; what one glob "
+                    "pattern matches (mvdan/sh expansion) is an oracle",
                     "the harness's copy of the goodRun monitor is tied to the Lean definition by comparing its verdict (g=) on every step"],
         "assumptions": ["status: commands are `test -f`, commands only write their declared files and append to a trace; no deps, "
                         "no preconditions; sub-task calls only in the form `task: helper` where the helper has one `test -f` precondition and one command "
@@ -249,18 +250,28 @@ PROPS = {
         "domains": [{"name": "globs"}, {"name": "fingerhist-c05"}],
         "cli": True,
         "trusted": ["mvdan/sh glob semantics is an oracle (per-pattern match sets come from the real expander run on that pattern alone)",
-                    "hash uninterpreted; fingerprint inequality needs the explicit hypothesis HashInj on the two streams involved"],
+                    "hashes uninterpreted; fingerprint inequality needs the explicit hypothesis FpInj (no collision) on the two (stream, length table) "
+                    "pairs involved"],
         "assumptions": ["as C04; timestamp idempotence under the side conditions 'no source newer than the last run', 'the generates exist' and "
                         "(since TS2 touches the marker only when the timestamp check itself asks for the run) 'the status commands did not fail "
                         "before that run'"],
         "level_text": "Theorems: C05_globs (for every pattern list and file set: p ∈ Globs ⇔ the last pattern matching p is positive; result strictly "
-                      "sorted), C05_idem (both methods), C05_force, C05_missing_generates (both methods since TS1), C05_status_fails, C05_detect_checksum (edit/add/remove/"
-                      "rename-in-place change the stream), C05_detect_move / C05_detect_move_op (the hashed name is the path relative to the task dir, "
-                      "injective on matched paths: a move or rename to another path changes the stream), C05_mtime, and "
-                      "C05_counterexample_undelimited (name and content hashed without delimiter) with C05_detect_partial, "
+                      "sorted), C05_idem (both methods), C05_force, C05_missing_generates (both methods since TS1), C05_status_fails, C05_detect_full_inj (FULL "
+                      "detection since fix F8B: the byte stream - names and contents back to back - together with the length table - the length of every "
+                      "name and content, 8 bytes each, fed to a second hash - is an injective encoding of the list of (name, content), stream_lenTable_inj; "
+                      "so for every project with injective names, i.e. every project since F8, different lists of (path, content) of the matched files give "
+                      "a different stream or a different length table: any edit, addition, removal, rename or move and any combination of them) and "
+                      "C05_detect_full_rerun (hence, under FpInj, the task reruns), C05_undelimited_fixed / C05_undelimited_two_files_fixed (the former "
+                      "counterexamples: file ab=c against file a=bc, a byte moving between a content and the next file's name), "
+                      "C05_counterexample_undelimited_historical / C05_stream_alone_not_injective (the stream alone, all that was hashed before the fix), "
+                      "C05_detect_checksum / C05_detect_partial (edit/add/remove change the stream itself), C05_detect_move / C05_detect_move_op (the hashed "
+                      "name is the path relative to the task dir, injective on matched paths), C05_mtime, "
                       "C05_idem_timestamp_status_counterexample (timestamp idempotence without the status side condition). Tie: "
-                      "fingerprint.Globs run in-process on random trees and glob/exclude lists; CLI histories with file operations between runs.",
-        "level_note": "Trusted: Lean kernel; harness; glob expansion oracle; hash uninterpreted (HashInj explicit).",
+                      "fingerprint.Globs run in-process on random trees and glob/exclude lists; Gen.FingerOrder incl. checksumFeed (what is fed to which "
+                      "hasher, in which order); CLI histories with file operations between runs, incl. a directed stream of boundary-shift pairs (a rename "
+                      "plus an edit that moves bytes between a name and the neighbouring content); the monitor 'skipped although the commands were never "
+                      "attempted on the present list of (path, content)' on the real observations.",
+        "level_note": "Trusted: Lean kernel; harness; glob expansion oracle; hashes uninterpreted (FpInj explicit).",
     },
     "C12": {
         "lean": "Props.C12",
